@@ -5,6 +5,7 @@ package net
 
 import (
 	"bufio"
+	"context"
 	"crypto/ecdsa"
 	"encoding/json"
 	"flag"
@@ -13,6 +14,7 @@ import (
 	stdnet "net"
 	"os"
 	"sync"
+	"time"
 
 	"github.com/ethereum/go-ethereum/crypto"
 	"github.com/ethereum/go-ethereum/p2p/enode"
@@ -147,6 +149,10 @@ func parallel(n, workers int, f func(i int)) {
 	wg.Wait()
 }
 
+func contextWithTimeout(d time.Duration) (context.Context, context.CancelFunc) {
+	return context.WithTimeout(context.Background(), d)
+}
+
 func Main(args []string) error {
 	fs := flag.NewFlagSet("net", flag.ContinueOnError)
 	mode := fs.String("mode", "", "findcontent|offer|findnodes|permits|versions|gossip|inrange")
@@ -156,6 +162,7 @@ func Main(args []string) error {
 	n := fs.Int("n", 1, "concretisations per case / number of random scenarios")
 	workers := fs.Int("workers", 8, "parallel scenarios")
 	slow := fs.Bool("slow", false, "include scenarios that wait for the code's own 15 s / 60 s timeouts")
+	child := fs.Int("child", -1, "internal: index of this child process (permits)")
 	if err := fs.Parse(args); err != nil {
 		return err
 	}
@@ -175,6 +182,8 @@ func Main(args []string) error {
 		return runInRange(w, *seed, *n)
 	case "findnodes":
 		return runFindNodes(w, cases, *seed, *n, *workers)
+	case "permits":
+		return runPermits(w, *out, *seed, *n, *workers, *slow, *child)
 	case "offer":
 		return runOffer(w, *seed, *n, *workers, *slow)
 	case "gossip":
